@@ -148,8 +148,18 @@ def rule_siblings(ctx, F):
             continue
         ca = [c for _, c in fa.calls() if c.get("fn") == impl]
         cb = [c for _, c in fb.calls() if c.get("fn") == impl]
+        def by_position(f, args):
+            pos = {q["name"]: "$%d" % i for i, q in enumerate(f.params)}
+            out = []
+            for x in args:
+                t = show(x)
+                for nm, rep in sorted(pos.items(), key=lambda kv: -len(kv[0])):
+                    import re as _re
+                    t = _re.sub(r"\b%s\b" % _re.escape(nm), rep, t)
+                out.append(t)
+            return out
         if len(ca) == 1 and len(cb) == 1 and strip(ca[0]["a"][-1]).get("v") == 1 and strip(cb[0]["a"][-1]).get("v") == 0 and \
-                [show(x) for x in ca[0]["a"][:-1]] == [show(x) for x in cb[0]["a"][:-1]]:
+                by_position(fa, ca[0]["a"][:-1]) == by_position(fb, cb[0]["a"][:-1]):
             ctx.ok("S2", key, "both call %s with the same arguments and include_anonymous true/false" % impl, sample={"all": allf, "named": namedf, "impl": impl})
         else:
             ctx.bad("S2", key, "%s and %s must both delegate to %s with identical arguments and include_anonymous = true / false" % (allf, namedf, impl))
@@ -249,6 +259,9 @@ def rule_s3b(ctx, F):
     fn = ctx.need_fn(F, "ts_tree_cursor_goto_descendant", "S3")
     if fn:
         vis = [(pt, n) for pt, n in find(fn, "ts_tree_cursor_is_entry_visible(self, _)")]
+        bind(fn, "next_descendant_index", "_ + ts_subtree_visible_descendant_count(_)")
+        ent = locals_of_type(fn, "TreeCursorEntry *")
+        bind_names(fn, {"entry": ent[0] if ent else None})
         nd = fn.ids_named("next_descendant_index")
         defs = [d for i in nd for d in fn.defs(i) if isinstance(d, dict)]
         ok_all = bool(vis) and bool(defs)
